@@ -5,6 +5,7 @@ package eng
 import (
 	"fmt"
 	"os"
+	"path/filepath"
 	"sort"
 	"strings"
 	"time"
@@ -19,9 +20,12 @@ type Violation struct {
 	Cfg    core.Cfg  `json:"cfg"`
 	Ops    []core.Op `json:"ops"`
 	Detail []string  `json:"detail"`
-	// What names the failing call / query / step; part of the signature.
-	What string `json:"what"`
-	Sig  string `json:"sig,omitempty"`
+	// Atoms name the failing call sites and symptoms ("PrefixScan(nolimit):missing"); each is
+	// matched against the known findings separately.  What is the first of them.
+	Atoms []string `json:"atoms"`
+	What  string   `json:"what"`
+	Tags  []string `json:"tags,omitempty"` // structural facts of the history (rot, reopen, tick, multi...)
+	Sig   string   `json:"sig,omitempty"`
 	// Extra carries engine-specific replay data (crash point, schedule...).
 	Extra map[string]interface{} `json:"extra,omitempty"`
 }
@@ -57,9 +61,53 @@ type Ctx struct {
 	Leaf      *Leaf
 }
 
-// Add records a violation.
+// Add records a violation with one atom.
 func (c *Ctx) Add(prop, kind, what string, detail ...string) {
-	c.Leaf.Viol = append(c.Leaf.Viol, Violation{Prop: prop, Kind: kind, Cfg: c.Cfg, Ops: c.Ops, Detail: detail, What: what})
+	c.Leaf.Viol = append(c.Leaf.Viol, Violation{Prop: prop, Kind: kind, Cfg: c.Cfg, Ops: c.Ops, Detail: detail, What: what, Atoms: []string{what}, Tags: c.Tags()})
+}
+
+// AddBad records a violation made of call/query mismatches.
+func (c *Ctx) AddBad(prop, kind string, bad []core.Mismatch) {
+	v := Violation{Prop: prop, Kind: kind, Cfg: c.Cfg, Ops: c.Ops, Tags: c.Tags()}
+	seen := map[string]bool{}
+	for _, m := range bad {
+		v.Detail = append(v.Detail, m.String())
+		if a := m.Atom(); !seen[a] {
+			seen[a] = true
+			v.Atoms = append(v.Atoms, a)
+		}
+	}
+	sort.Strings(v.Atoms)
+	v.What = v.Atoms[0]
+	c.Leaf.Viol = append(c.Leaf.Viol, v)
+}
+
+// Tags lists structural facts of the history that select code paths.
+func (c *Ctx) Tags() []string {
+	t := map[string]bool{}
+	for _, o := range c.Ops {
+		switch o.Kind {
+		case "reopen", "tick", "merge", "backup":
+			t[o.Kind] = true
+		}
+		if o.SameMs {
+			t["samems"] = true
+		}
+		if o.Fault != nil {
+			t["fault"] = true
+		}
+	}
+	if c.Inst != nil {
+		if m, _ := filepath.Glob(filepath.Join(c.Inst.Dir, "*.dat")); len(m) > 1 {
+			t["rot"] = true
+		}
+	}
+	var out []string
+	for k := range t {
+		out = append(out, k)
+	}
+	sort.Strings(out)
+	return out
 }
 
 // Feature counts a covered feature.
@@ -203,33 +251,49 @@ func JudgeModel(c *Ctx, prop string) {
 		c.Add(prop, "panic", last.Kind+":"+callNames(last), c.Last.Panic)
 		return
 	}
+	if len(c.Last.Bad) > 0 {
+		c.AddBad(prop, "call-result", c.Last.Bad)
+		return
+	}
 	for _, n := range c.Last.Notes {
-		c.Add(prop, "call-result", noteWhat(n), n)
+		c.Add(prop, "op-outcome", last.Kind+":"+outcomeClass(n), n)
 		return
 	}
 	if c.ObsErr != nil {
 		c.Add(prop, "obs-failed", "View", c.ObsErr.Error())
 		return
 	}
-	if notes := core.CheckObs(c.Inst.Model, c.Queries, c.Obs); len(notes) > 0 {
-		c.Add(prop, "obs-mismatch", noteWhat(notes[0]), notes...)
+	if bad := core.CheckObs(c.Inst.Model, c.Queries, c.Obs); len(bad) > 0 {
+		c.AddBad(prop, "obs-mismatch", bad)
 	}
+}
+
+func outcomeClass(n string) string {
+	for _, k := range []string{"failed unexpectedly", "succeeded although", "finished transaction", "Close failed"} {
+		if strings.Contains(n, k) {
+			return strings.Replace(k, " ", "-", -1)
+		}
+	}
+	return "other"
 }
 
 // JudgeReopen is the differential oracle of C08/C09: Open succeeds and shows the same observation.
 func JudgeReopen(c *Ctx, propOpen, propSame string) {
 	if c.ReopenErr != nil {
 		if propOpen != "" {
-			c.Add(propOpen, "open-error", errClass(c.ReopenErr.Error()), c.ReopenErr.Error())
+			c.Add(propOpen, "open-error", ErrClass(c.ReopenErr.Error()), c.ReopenErr.Error())
 		}
 		return
 	}
 	if propSame != "" && c.ObsReopen != nil {
 		if d := core.DiffObs(c.Queries, c.Obs, c.ObsReopen); len(d) > 0 {
-			c.Add(propSame, "reopen-diff", noteWhat(d[0]), d...)
+			c.AddBad(propSame, "reopen-diff", d)
 		}
 	}
 }
+
+// CallNames lists the call names of an op.
+func CallNames(op core.Op) string { return callNames(op) }
 
 func callNames(op core.Op) string {
 	var n []string
@@ -239,19 +303,8 @@ func callNames(op core.Op) string {
 	return strings.Join(n, ";")
 }
 
-// noteWhat extracts the call name from a complaint of the form "[call N ]Name(args): text".
-func noteWhat(n string) string {
-	n = strings.TrimPrefix(n, "call ")
-	if i := strings.Index(n, " "); i > 0 && i < 4 {
-		if _, err := fmt.Sscanf(n[:i], "%d", new(int)); err == nil {
-			n = n[i+1:]
-		}
-	}
-	return callName(n)
-}
-
-// errClass abstracts an error message to a stable class.
-func errClass(msg string) string {
+// ErrClass abstracts an error message to a stable class.
+func ErrClass(msg string) string {
 	for _, k := range []string{"crc error", "EOF", "offset out of mapped region", "SRem", "listIdx", "panicked", "not support", "no such file", "err EntryIdxMode"} {
 		if strings.Contains(msg, k) {
 			return strings.Replace(k, " ", "-", -1)
